@@ -1239,6 +1239,7 @@ def _read_bipartite_kthlist(inputfile):
 
         # after vertices, add the edges
         edges[left] = right
+        previous = left
 
     # fix the bipartition
     # unsassigned vertices go to the right size
